@@ -130,6 +130,7 @@ func raceSignatures(text string) []Violation {
 		}
 		var frames []string
 		copyRace := false
+		harnessAccess := 0
 		for _, sec := range sections {
 			if strings.HasPrefix(sec[0], "Goroutine") {
 				continue
@@ -140,8 +141,18 @@ func raceSignatures(text string) []Violation {
 			}
 			fr := "outside-library"
 			viaCopy := false
+			first := true
 			for _, l := range sec[1:] {
 				tl := strings.TrimSpace(l)
+				if first && tl != "" && !strings.Contains(tl, ".go:") {
+					// the function that performs the access (skipping runtime helpers)
+					if !strings.HasPrefix(tl, "runtime.") && !strings.HasPrefix(tl, "internal/") {
+						first = false
+						if strings.HasPrefix(tl, "simharness.") || strings.Contains(tl, "/simrt.") {
+							harnessAccess++
+						}
+					}
+				}
 				if strings.HasPrefix(tl, "github.com/mitchellh/copystructure.Copy(") {
 					viaCopy = true
 				}
@@ -171,6 +182,11 @@ func raceSignatures(text string) []Violation {
 			if !strings.HasSuffix(f, "outside-library") {
 				inLib = true
 			}
+		}
+		if harnessAccess >= 2 {
+			// both accesses are to memory of the harness / simulator itself
+			out = append(out, Violation{Rule: "INFRA.race-in-harness", Msg: r, Sig: "INFRA.race-in-harness"})
+			continue
 		}
 		if !inLib {
 			// a race entirely outside the library (harness or simulator bug)
